@@ -252,6 +252,10 @@ class BaseCommand(FlockMixin, ABC):
                     )
                 except Exception as e:
                     logger.warning(f"Could not write the run meta to the database: {e!r}")
+                # Ctrl-C while the row is completed must not leave the `finally:` block of
+                # entry_point(); the statement already handed to sqlite is committed by disconnect().
+                except asyncio.exceptions.CancelledError as e:
+                    logger.warning(f"Interrupted while writing the run meta to the database: {e!r}")
 
             try:
                 await self.db_handler.disconnect()
